@@ -684,7 +684,8 @@ def _op(name, fn, family, table="T_int", unordered=False, noindex=False, binary=
 
 
 # binary: "right" = second table T_right (independent layout); "same" = the same table with an independent layout
-_ALIGN_REFUSAL = ("Not all divisions are known", "unknown division", "known divisions")
+_ALIGN_REFUSAL = ("Not all divisions are known", "unknown division", "known divisions",
+                  "Concatenated DataFrames of different lengths")
 _ROLLING_REFUSAL = ("Can only rolling dataframes with known divisions",)
 _FILL_REFUSAL = ("All NaN partition encountered in `fillna`",)
 # documented warning of Concat._lower(axis=1) for unknown divisions with equal partition counts
@@ -899,7 +900,8 @@ def run_case(case):
                 return None
             if isinstance(ex, AssertionError) and op["family"] in ("align", "concat") and really_known and R is not None:
                 divs = set(env_d["L"].divisions) | set(env_d["R"].divisions)
-                if len(divs) == 2:
+                single = env_d["L"].npartitions == 1 and env_d["R"].npartitions == 1
+                if single or len(divs) == 2:  # MaybeAlignPartitions._divisions has two entries
                     # known finding D28: the aligned divisions have two entries, the repartition is skipped
                     return ({"kind": "align", "lower_skips_repartition": True, "what": "raised:AssertionError"},
                             f"{type(ex).__name__} in Blockwise._divisions (D28)")
@@ -921,6 +923,8 @@ def run_case(case):
     if not e2e.same(got, want, sort_rows=unordered, drop_index=op["noindex"]):
         sig["what"] = "differs"
         site = _site(built, really_known)
+        if site is None and op["name"] == "align_assign" and hasattr(got, "__len__") and len(got) > len(want):
+            site = "Assign.operation[empty left partition adopts the index of the assigned series]"
         if site:
             sig["site"] = site
         return (sig, f"got={e2e.describe(got, 8)!r:.500} want={e2e.describe(want, 8)!r:.500}")
@@ -953,10 +957,9 @@ def enumerate_cases():
         else:
             # independently chosen layouts: every layout of one side against a fixed varied set on the other
             pairs = []
-            for cuts, may_known in lay:
-                for other in _RIGHT_LAYOUTS[:3]:
-                    pairs.append((cuts, other))
-                    pairs.append((other, cuts))
+            for n, (cuts, may_known) in enumerate(lay):
+                pairs.append((cuts, _RIGHT_LAYOUTS[1 + n % 2]))
+                pairs.append((_RIGHT_LAYOUTS[n % 3], cuts))
             for cl in _RIGHT_LAYOUTS:
                 for cr in _RIGHT_LAYOUTS:
                     pairs.append((cl, cr))
@@ -1030,7 +1033,7 @@ def _cases(ctx, broken):
         pick = []
         for name, cs in by_op.items():
             rng.shuffle(cs)
-            pick += cs[:22]
+            pick += cs[:14]
         cases = pick
         if steered:
             rng.shuffle(steered)
